@@ -357,3 +357,13 @@ package wire
 //@   loop 9 invariant [C08] len(errs) == 0 <==> allImp(set, used, len(set.Imports)) && allProv(set, used, len(set.Providers)) && allVal(set, used, len(set.Values)) && allBind(set, used, len(set.Bindings)) && allFld(set, used, done)
 //@   loop 10 invariant [C08] len(errs) == 0 <==> allImp(set, used, len(set.Imports)) && allProv(set, used, len(set.Providers)) && allVal(set, used, len(set.Values)) && allBind(set, used, len(set.Bindings)) && allFld(set, used, done9)
 //@   loop 10 invariant [C08] forall u :: 0 <= u && u < done ==> used[u].Field != f
+
+// ---------------------------------------------------------------------------
+// wire.go: Commit (C17, C18)
+// ---------------------------------------------------------------------------
+
+//@ func (GenerateResult).Commit
+//@   modifies FSWRITTEN[gen.OutputPath], FSCONTENT[gen.OutputPath], FSWCOUNT[0], WRITEERR[0]
+//@   ensures [C17,C18] len(gen.Content) == 0 ==> result == nil && FSWCOUNT[0] == old(FSWCOUNT[0]) && WRITEERR[0] == old(WRITEERR[0]) && FSWRITTEN[gen.OutputPath] == old(FSWRITTEN[gen.OutputPath]) && FSCONTENT[gen.OutputPath] == old(FSCONTENT[gen.OutputPath])
+//@   ensures [C17,C18] len(gen.Content) > 0 ==> FSWCOUNT[0] == old(FSWCOUNT[0]) + 1 && FSWRITTEN[gen.OutputPath] && FSCONTENT[gen.OutputPath] == gen.Content
+//@   ensures [C17] WRITEERR[0] == old(WRITEERR[0]) + (result != nil ? 1 : 0)
